@@ -40,12 +40,19 @@ eval_fn = Fn(FF, "eval_fn", slot="resolver", ret="res", key="eval_fn", props=["C
     ])},
 )
 
+KNOWN3 = '(query.func == "incbin" || query.func == "incbinstr" || query.func == "inchexstr")'
+known_builtin = Fn(FF, "get_statically_known_builtin_fn", slot="resolver", ret="res", key="get_statically_known_builtin_fn", props=["C17", "C02"],
+    ensures=[C("only_the_file_inclusion_functions_are_known_before_the_first_pass", "res == " + KNOWN3, ["C17", "C02"])],
+    rewrites=[Rewrite("match query.func.as_ref()", "match query.func", rule="R16", why="`str::as_ref()` on a `&str` (the identity; no vstd specification) dropped")],
+)
+
 UNIT = Unit(
     "U-evalfn", "u_evalfn/skeleton.rs",
     items=ur.COMMON + uev.SYMS + [
         Type(FX, "struct", "EvalFunctionQuery", slot="expr"), Type(FX, "struct", "EvalFunctionQueryArgument", slot="expr"),
         Type(FD, "struct", "Function", slot="asm"), Type(FD, "struct", "FunctionParameter", slot="asm"),
-        ensure_arg_number, eval_stub, eval_fn,
+        Type("src/expr/inspect.rs", "struct", "StaticallyKnownFunctionQuery", slot="expr"),
+        ensure_arg_number, eval_stub, eval_fn, known_builtin,
     ],
     serves=["C17", "C19", "C03"],
     description="asm::resolver::eval_fn: calling a user-defined function",
